@@ -19,9 +19,19 @@ import (
 type C14Case struct {
 	World   m.WorldM `json:"world"`
 	Queries []string `json:"queries"`
+	// JSON with schema: one structured configuration rendered as HCL JSON (World unused)
+	Dual *C19Case `json:"dual,omitempty"`
 }
 
 func genC14(g gen.G) C14Case {
+	if g.Chance(25) {
+		d := genC19(g)
+		qs := []string{""}
+		for i, n := 0, g.Int(1, 3); i < n; i++ {
+			qs = append(qs, gen.Pick(g, []string{"variable", "a", "aws", "\"", "out", "zzz-miss", "cé", "resource \"aws\""}))
+		}
+		return C14Case{Dual: &d, Queries: qs}
+	}
 	o := gen.WorldOpts{
 		Schema:   gen.SchemaOpts{MaxDepth: 2},
 		Cfg:      gen.CfgOpts{Violations: 10, Layout: true},
@@ -171,7 +181,141 @@ func childInsideParent(ns []symNode, parent *symNode, r *Result, fi *fileInfo) {
 	}
 }
 
+// expectedJSONOutline is the block/attribute outline of a structured configuration in
+// the order the JSON renderer writes it: attributes in order, then the block types
+// in order of first occurrence, each with its blocks in order.
+func expectedJSONOutline(items []gen.DualItem) []symNode {
+	var out []symNode
+	var order []string
+	groups := map[string][]symNode{}
+	for _, it := range items {
+		if it.Kind == "attr" {
+			out = append(out, symNode{Kind: "attr", Name: it.Name})
+			continue
+		}
+		name := it.Name
+		for _, l := range it.Labels {
+			name += fmt.Sprintf(" %q", l)
+		}
+		if _, ok := groups[it.Name]; !ok {
+			order = append(order, it.Name)
+		}
+		groups[it.Name] = append(groups[it.Name], symNode{Kind: "block", Name: name, Children: expectedJSONOutline(it.Body)})
+	}
+	for _, t := range order {
+		out = append(out, groups[t]...)
+	}
+	return out
+}
+
+// outlineString renders kinds, names and nesting of blocks and attributes (no ranges, no
+// expression children: what JSON expressions yield as nested symbols is not stated).
+func outlineString(ns []symNode, indent string) string {
+	var sb strings.Builder
+	for _, n := range ns {
+		if n.Kind == "expr" {
+			continue
+		}
+		fmt.Fprintf(&sb, "%s%s %q\n", indent, n.Kind, n.Name)
+		sb.WriteString(outlineString(n.Children, indent+"  "))
+	}
+	return sb.String()
+}
+
+// siblingsOrdered checks that siblings are in source order (JSON blocks written under one
+// key share that key's start, so extents of siblings may overlap: only the order is judged).
+func siblingsOrdered(ns []symNode, r *Result, text string) {
+	for i := range ns {
+		if i > 0 && ns[i].Range.Start.Byte < ns[i-1].Range.Start.Byte && ns[i].Kind != "expr" && ns[i-1].Kind != "expr" {
+			r.Fail("json-symbols-order", "symbols %q (%d-%d) and %q (%d-%d) are not in source order\n%s", ns[i-1].Name, ns[i-1].Range.Start.Byte, ns[i-1].Range.End.Byte,
+				ns[i].Name, ns[i].Range.Start.Byte, ns[i].Range.End.Byte, clip(text, 1500))
+		}
+		siblingsOrdered(ns[i].Children, r, text)
+	}
+}
+
+func checkC14Dual(c C14Case) Result {
+	var r Result
+	jsonText := gen.RenderJSON(c.Dual.Items)
+	schema := c.Dual.Schema
+	wm := m.WorldM{Paths: []m.PathM{{Path: "p0", Schema: &schema, Files: []m.FileM{{Name: "main.tf.json", Text: jsonText, JSON: true}}}}}
+	w, pi := SafeBuild(func() *world.World { return world.Build(wm) })
+	if pi != nil {
+		r.Exclude("library-panic(C01)")
+		return r
+	}
+	d := w.Decoder()
+	want := expectedJSONOutline(c.Dual.Items)
+	// The document-symbol entry point rejects JSON files with an error value ("unknown file
+	// format") by design; the outline of a JSON file is only served through the workspace
+	// query, whose symbols carry their nested symbols. Either answer of SymbolsInFile is
+	// accepted, the outline is judged on the workspace query with the empty query string.
+	res := Exec(w, d, Call{Kind: "wsSymbols", Path: 0, Query: ""})
+	if res.Panic != nil {
+		r.Exclude("library-panic(C01)")
+		return r
+	}
+	r.Evals++
+	if res.Err != nil {
+		r.Fail("json-symbols-error", "Symbols(\"\") returned error %v\n%s", res.Err, clip(jsonText, 1500))
+		return r
+	}
+	got := actualSymbols(res.Val.([]decoder.Symbol))
+	if a, b := outlineString(want, ""), outlineString(got, ""); a != b {
+		r.Fail("json-symbols-outline", "Symbols(\"\") over main.tf.json is not the outline of the configuration\n expected:\n%s\n got:\n%s\n file:\n%s", clip(a, 1500), clip(b, 1500), clip(jsonText, 1500))
+	}
+	files := map[string][]byte{"main.tf.json": []byte(jsonText)}
+	var walk func(ns []symNode)
+	walk = func(ns []symNode) {
+		for _, n := range ns {
+			if n.Range.Filename != "main.tf.json" || n.Range.Start.Byte < 0 || n.Range.End.Byte > len(jsonText) || n.Range.Start.Byte >= n.Range.End.Byte {
+				r.Fail("json-symbol-range", "symbol %q has range %v outside the file / empty (file length %d)", n.Name, n.Range, len(files["main.tf.json"]))
+			}
+			walk(n.Children)
+		}
+	}
+	walk(got)
+	childInsideParent(got, nil, &r, nil)
+	siblingsOrdered(got, &r, jsonText)
+	// workspace query
+	hits, misses := false, false
+	for _, q := range c.Queries {
+		x := Exec(w, d, Call{Kind: "wsSymbols", Path: 0, Query: q})
+		if x.Panic != nil {
+			r.Exclude("library-panic(C01)")
+			continue
+		}
+		r.Evals++
+		var sel []symNode
+		for _, n := range want {
+			if q == "" || strings.Contains(n.Name, q) {
+				sel = append(sel, n)
+				hits = true
+			} else {
+				misses = true
+			}
+		}
+		gotQ := actualSymbols(x.Val.([]decoder.Symbol))
+		if a, b := outlineString(sel, ""), outlineString(gotQ, ""); a != b {
+			r.Fail("json-workspace-symbols", "Symbols(%q) differs from the top-level symbols whose name contains the query\n expected:\n%s\n got:\n%s\n file:\n%s", q, clip(a, 1200), clip(b, 1200), clip(jsonText, 1200))
+		}
+	}
+	r.Class("json-with-schema")
+	depth := symDepth(want)
+	if depth >= 2 {
+		r.Class("nested(depth>=2)")
+	}
+	if hits && misses {
+		r.Class("query-hits-and-misses")
+	}
+	r.NonTrivial = depth >= 2
+	return r
+}
+
 func checkC14(c C14Case) Result {
+	if c.Dual != nil {
+		return checkC14Dual(c)
+	}
 	var r Result
 	w, pi := SafeBuild(func() *world.World { return world.Build(c.World) })
 	if pi != nil {
